@@ -571,3 +571,135 @@ pub fn replay_hist(v: &serde_json::Value) -> i32 {
         }
     }
 }
+
+/// independently written formulas of the documented built-in policies
+fn doc_policy(cur: usize, double_until: usize, limit: Option<usize>) -> Option<usize> {
+    // "double below the threshold, add the threshold above it, refuse beyond the limit"
+    let new = if cur < double_until { cur.checked_mul(2)? } else { cur.checked_add(double_until)? };
+    match limit {
+        Some(l) if new > l => None,
+        _ => Some(new),
+    }
+}
+
+fn c09_builtin(tier: Tier) -> Totals {
+    use seq_io::policy::{BufPolicy, DoubleUntil, DoubleUntilLimited, StdPolicy};
+    let mut sizes: Vec<usize> = (0..=if tier == Tier::Quick { 1024 } else { 4096 }).collect();
+    sizes.extend((1usize << 23) - 2..=(1usize << 23) + 2);
+    sizes.push(1 << 30);
+    let mut params: Vec<usize> = (0..64).collect();
+    params.push(1 << 23);
+    let np = params.len() as u64;
+    par_sweep(np, 1, |pi, l| {
+        let t = params[pi as usize];
+        for &cur in &sizes {
+            let mut check = |name: &str, got: Option<usize>, want: Option<usize>| {
+                l.evals += 1;
+                if want.is_none() || got != Some(cur) {
+                    l.nontrivial += 1;
+                }
+                if got != want {
+                    l.violation(Violation {
+                        property: "C09".into(),
+                        sig: format!("builtin-policy|{}", name.split('(').next().unwrap()),
+                        detail: format!("{}.grow_to({}) = {:?}, documented size {:?}", name, cur, got, want),
+                        weight: (cur + t) as u64,
+                        replay: json!({"kind": "policy", "policy": name, "current": cur}),
+                    });
+                }
+            };
+            if pi == 0 {
+                check("StdPolicy", StdPolicy.grow_to(cur), doc_policy(cur, 1 << 23, None));
+            }
+            check(&format!("DoubleUntil({})", t), DoubleUntil(t).grow_to(cur), doc_policy(cur, t, None));
+            for &lim in &params {
+                check(&format!("DoubleUntilLimited({},{})", t, lim), DoubleUntilLimited::new(t, lim).grow_to(cur), doc_policy(cur, t, Some(lim)));
+            }
+        }
+        if pi == 3 {
+            l.samples.push(json!({"policy": "DoubleUntilLimited(3, 10)", "grow_to(4)": format!("{:?}", DoubleUntilLimited::new(3, 10).grow_to(4)), "grow_to(8)": format!("{:?}", DoubleUntilLimited::new(3, 10).grow_to(8))}));
+        }
+    })
+}
+
+pub fn c09(tier: Tier) -> i32 {
+    let mut scenarios: Vec<Scenario> = vec![];
+    let mk = |alphabet: Vec<Op>, env: &Env, data: &[u8], rs: &RefStream| {
+        let mut sc = Scenario { data: data.to_vec(), env: env.clone(), alphabet, positions: false, iterate_failed_sets: false, policy_clauses: true, explore_post: false };
+        let nrec = rs.recs.len();
+        sc.alphabet.retain(|op| match op {
+            Op::K(i) => (*i as usize) < nrec,
+            _ => true,
+        });
+        sc
+    };
+    // (a-c) histories with recording / refusing / slowly growing policies and policy swaps
+    for &format in &[Format::Fasta, Format::Fastq] {
+        let inputs = if tier == Tier::Quick { small_inputs(format, tier) } else { hist_inputs(format, Tier::Quick) };
+        for data in inputs {
+            let rs = reference(format, &data);
+            let maxext = rs.recs.iter().map(|r| r.extent).max().unwrap_or(3);
+            for cap in hist_caps(&data, &rs, tier) {
+                let mut pols = vec![PolKind::Std, PolKind::Plus1, PolKind::DoubleUntil(4), PolKind::RefuseAbove(cap), PolKind::RefuseAbove(maxext + 1), PolKind::Plus1RefuseAbove(maxext.saturating_sub(1).max(cap))];
+                pols.push(PolKind::Limited(4, maxext + 2));
+                pols.dedup();
+                for policy in pols {
+                    let env = Env { format, cap, chunk: Chunk::All, int: IntPat::None, policy, fault: None };
+                    scenarios.push(mk(vec![Op::N, Op::O, Op::SA, Op::SB, Op::P, Op::PStd, Op::K(0)], &env, &data, &rs));
+                }
+            }
+        }
+    }
+    let n_hist = scenarios.len();
+    // (a') every class string, sequential next() / plain set reads, recording policies
+    let maxlen = if tier == Tier::Quick { 6 } else { 8 };
+    for &format in &[Format::Fasta, Format::Fastq] {
+        for idx in 0..class_count(format, maxlen) {
+            let data = class_string(format, idx);
+            let rs = reference(format, &data);
+            if rs.recs.iter().any(|r| !r.claimed) || rs.err.as_ref().map_or(false, |e| e.or_record.is_some()) {
+                continue;
+            }
+            for cap in 3..=data.len().max(1) + 2 {
+                for policy in [PolKind::Std, PolKind::Plus1] {
+                    for chunk in [Chunk::All, Chunk::Fixed(1)] {
+                        if chunk != Chunk::All && policy != PolKind::Std {
+                            continue;
+                        }
+                        let env = Env { format, cap, chunk, int: IntPat::None, policy, fault: None };
+                        scenarios.push(mk(vec![Op::N], &env, &data, &rs));
+                        scenarios.push(mk(vec![Op::SA], &env, &data, &rs));
+                    }
+                }
+            }
+        }
+    }
+    let n_class = scenarios.len() - n_hist;
+    // long inputs whose records all fit: no growth however long the input is
+    for &format in &[Format::Fasta, Format::Fastq] {
+        for nrec in [40usize, 200] {
+            let shapes: Vec<usize> = (0..nrec).map(|i| [0usize, 2, 1, 0, 3][i % 5] % 4).collect();
+            let f = rf(format, &shapes, false, true, 0, 0, None);
+            let data = f.bytes();
+            let rs = reference(format, &data);
+            let maxext = rs.recs.iter().map(|r| r.extent).max().unwrap();
+            for cap in [maxext + 1, maxext + 2, 2 * maxext, 3 * maxext + 1, maxext - 1, maxext - 3] {
+                let env = Env { format, cap, chunk: Chunk::All, int: IntPat::None, policy: PolKind::Plus1, fault: None };
+                scenarios.push(mk(vec![Op::N], &env, &data, &rs));
+                scenarios.push(mk(vec![Op::SA], &env, &data, &rs));
+            }
+        }
+    }
+    let n_long = scenarios.len() - n_hist - n_class;
+    let builtin = c09_builtin(tier);
+    run_hist_with(HistCfg {
+        prop: "C09",
+        tier,
+        state_cap: if tier == Tier::Quick { 3000 } else { 60000 },
+        rule: format!("(a-c) explicit-state BFS over {{next, owned next, set into A/B, install fresh policy instance, install permissive policy, seek(0)}} for {} scenarios = input x capacity x recording policy in {{Std, +1, DoubleUntil(4), DoubleUntilLimited(4,max+2), refuse-at-once, refuse above max extent+1, +1 refusing above max extent-1}}; oracle on every call: every grow_to argument = current capacity, adopted size = answer (chain), request goes to the installed instance, growth only when a record being parsed has extent >= capacity (histories without exact-count batches), BufferLimit iff the policy refused during that call, stream content per reference model; (a') {} sequential scenarios over every class string of length <= {} x capacity x {{Std,+1}} for next()-only and set-only reading; {} scenarios with 40/200-record inputs whose records fit (no growth however long); (d) built-in policies StdPolicy, DoubleUntil(t), DoubleUntilLimited(t,lim) for all current sizes 0..{} and around 2^23, 2^30, all t,lim in 0..63 and 2^23 against an independently written formula", n_hist, n_class, maxlen, n_long, if tier == Tier::Quick { 1024 } else { 4096 }),
+        scenarios,
+        plain_depth: 0,
+        plain_every: 1,
+        clauses: None,
+    }, Some(builtin))
+}
